@@ -252,12 +252,26 @@ func (m *ConfigManager) UpdateSettings(s Settings) error {
 		}
 	}
 
+	// persist first: a failed write must leave the in-memory settings untouched
+	if err := m.store.UpdateSettings(s); err != nil {
+		return err
+	}
+	// the store assigns the revision number. Reload it so the cached settings
+	// are the ones a restart would load.
+	stored, err := m.store.Settings()
+
 	m.mu.Lock()
+	if err != nil {
+		m.log.Warn("failed to reload settings revision", zap.Error(err))
+		s.Revision = m.settings.Revision + 1
+	} else {
+		s.Revision = stored.Revision
+	}
 	m.settings = s
 	m.setRateLimit(s.IngressLimit, s.EgressLimit)
 	m.resetDDNS()
 	m.mu.Unlock()
-	return m.store.UpdateSettings(s)
+	return nil
 }
 
 // Settings returns the host's current settings.
